@@ -99,3 +99,14 @@ Theorem class_inhabited : in_class cid_eqb w1 idn idn (q 1000) 0 /\ clear_of_def
   cn_ok cid w1 idn (cn_canonical cid_eqb w1 idn).
 Proof. exact (conj w1_class (conj w1_clear (cn_canonical_ok cid_eqb w1 idn cid_eqb_eq))). Qed.
 Print Assumptions class_inhabited.
+
+(** when the hypothesis [ic_nosnap] of the class holds: layer_snap <= 0, or every column's top block
+    at least layer_snap high *)
+Theorem no_snap_when_disabled : forall g snap s, snap <= 0 -> snap_surface g snap s = s.
+Proof. exact nosnap_nonpos. Qed.
+Print Assumptions no_snap_when_disabled.
+Theorem no_snap_when_top_blocks_high : forall g, wf g -> forall snap,
+  (forall i j, (i < nx g)%nat -> (j < ny g)%nat -> snap <= gsurf g i j - bot g (Track.ktop g i j)) ->
+  forall i j, (i < nx g)%nat -> (j < ny g)%nat -> snap_surface g snap (gsurf g i j) = gsurf g i j.
+Proof. exact nosnap_high_tops. Qed.
+Print Assumptions no_snap_when_top_blocks_high.
